@@ -277,6 +277,38 @@ mod dictionary {
             // Lazy
         }
     }
+
+    #[cfg(feature = "verif")]
+    impl DictionaryCodec {
+        /// Verification hook: the current dictionary as `(entry, tag)` pairs, in entry order.
+        #[must_use]
+        pub fn verif_dictionary(&self) -> Vec<(Vec<u8>, u8)> {
+            self.encode.iter().map(|(k, v)| (k.clone(), *v)).collect()
+        }
+
+        /// Verification hook: the tags that the decoder maps to a dictionary entry.
+        #[must_use]
+        pub fn verif_bound_tags(&self) -> Vec<u8> {
+            (0..=255u8)
+                .filter(|tag| self.decode.get((*tag).into()).is_some())
+                .collect()
+        }
+    }
+}
+
+#[cfg(feature = "verif")]
+impl<C, R> CodecRegion<C, R> {
+    /// Verification hook: read-only access to the codec.
+    #[must_use]
+    pub fn verif_codec(&self) -> &C {
+        &self.codec
+    }
+
+    /// Verification hook: read-only access to the inner region.
+    #[must_use]
+    pub fn verif_inner(&self) -> &R {
+        &self.inner
+    }
 }
 
 /// A map from `0 .. something` to `Option<&[u8]>`.
